@@ -67,6 +67,12 @@ CLAIMS = {
          "thr S_(j-1) <= k < thr S_j, with S_j the f32 partial sums and thr S = ceil(S * 2^23) computed exactly; no transition beyond the last threshold), "
          "C06_threshold_exact (k/2^23 < S <-> k < thr S, Flocq binary32), C06_draw_exact, C06_one (probability 1 is always taken), C06_none. The tie enumerates the "
          "complete draw space on the real code and compares exact counts with the thresholds.", "DESIGN.md section 4, C06"),
+
+ "C11": ("PARTIAL (zlib, SHA-256, the allocator and the legacy v1 parser are outside the proof). Theorems C11_base64_roundtrip, C11_bincode_roundtrip, "
+         "C11_bincode_trailing_rejected (codec inductions over the full Machine type, varint/LE/Option/Vec/array/enum), C11_roundtrip (with the recorded flate2 "
+         "contract: from_str (serialize m) = m for every validated machine whose encoding fits 1 MiB), C11_reject_or_valid (for every string and every behaviour "
+         "of zlib, from_str returns an error or a validated machine). The Coq codecs are compared byte for byte with the bincode and base64 crates, and the real "
+         "pipeline and v1 parser are run on hostile strings under catch_unwind.", "DESIGN.md section 4, C11"),
 }
 
 NOT_YET = "check not built yet (in progress; planned per DESIGN.md section 7)"
